@@ -76,17 +76,75 @@ def _strip_cell(body, t):
     return t
 
 
+def _cell_uses(ev, ends, cell_pred):
+    """What happens to looked-up cells in an evaluation: list of (consumer name, site) over all paths."""
+    from . import semq as Q
+    out = set()
+
+    def view(t):
+        # only what is still the cell itself: casts and plain re-borrows (a `borrow()` result is a guard, not the cell)
+        while isinstance(t, tuple) and t:
+            if t[0] == "cast":
+                t = t[2]
+            elif t[0] == "call" and ev.callee(t[1]) is not None and not ev.callee(t[1]).local and ev.callee(t[1]).name in ("deref", "as_ref", "as_deref") and t[2] \
+                    and CELL not in (ev.callee(t[1]).path or ""):
+                t = t[2][0]
+            else:
+                break
+        return t
+
+    def is_cell(t):
+        s = view(t)
+        while isinstance(s, tuple) and s and s[0] == "agg" and s[1] == "adt" and s[2].startswith("std::option::Option::Some"):
+            s = view(s[3][0])
+        return cell_pred(s)
+
+    def visit(events):
+        for x in events:
+            if x[0] == "call":
+                for a in x[3]:
+                    if is_cell(a):
+                        out.add((x[2].name, ev.loc(x[1])))
+            elif x[0] == "store" and x[2][0] != "cell" and is_cell(x[3]):
+                out.add(("<store>", ev.loc(x[1])))
+            elif x[0] == "yield" and is_cell(x[2]):
+                out.add(("<collect>", ev.loc(x[1])))
+            elif x[0] == "loop":
+                for it in x[1].iters:
+                    visit(it.path.events)
+
+    for e in ends:
+        visit(e.path.events)
+        if e.kind == "return" and e.ret is not None:
+            r = e.ret
+            stack = [r]
+            while stack:
+                y = stack.pop()
+                if is_cell(y):
+                    out.add(("<return>", None))
+                    break
+                if isinstance(y, tuple) and y and y[0] == "agg":
+                    stack.extend(y[3])
+    return sorted(out, key=str)
+
+
 def gate(ctx, report, rule, facts, config):
     """C08.GATE: every path from a shared &World to a resource goes through the cell's borrow API."""
+    from . import semq as Q
     prog = ctx.program(facts)
     n_shared = n_mut = 0
+    tfi_key = facts.one(A.WORLD + "::try_fetch_internal").key
+    ast_key = facts.one(A.RESID + "::assert_same_type_id").key
+    deferred = []
+    results = {}
     for b in sorted(facts.bodies.values(), key=lambda b: b.key):
-        hits = touches_field(b, A.WORLD, "resources")
+        if b.is_closure:
+            continue
+        hits = touches_field(b, A.WORLD, "resources") or [h for c in facts.closures_of(b) for h in touches_field(c, A.WORLD, "resources")]
         if not hits:
             continue
         kind = world_ref_kind(b)
         report.touched(b, config)
-        bt = prog.bt(b)
         if b.qname == "<" + A.WORLD + " as std::default::Default>::default":
             continue
         if kind == "shared":
@@ -94,35 +152,69 @@ def gate(ctx, report, rule, facts, config):
         else:
             n_mut += 1
         problems = []
-        gets = []
-        for bb, t in b.normal_calls():
-            c = Callee(t["func"])
-            if not t["args"] or c.local:
-                continue
-            args = bt.call_args(bb)
-            recv = args[0]
-            while isinstance(recv, tuple) and recv and (recv[0] == "cast" or (recv[0] == "call" and S.callee_at(b, recv[1]).name in ("deref", "deref_mut") and recv[2])):
-                recv = recv[2] if recv[0] == "cast" else recv[2][0]
-            if isinstance(recv, tuple) and recv[0] == "field" and recv[3] == A.WORLD and recv[2] == "resources":
-                allowed = READ_API if kind == "shared" else MUT_API
-                if c.name not in allowed:
-                    problems.append("calls `%s` on the resource table through a %s World reference" % (c.name, kind))
-                if c.name == "get":
-                    gets.append(bb)
+        returns_cell = False
+        try:
+            ev, ends = Q.sem(ctx, facts, b, opaque=[tfi_key, ast_key, A.RESID + "::new"] + _downcasts(facts))
+        except Exception as e_:
+            report.ob(rule, "table-access/%s" % b.qname, False, "cannot tabulate %s (%s)" % (b.qname, type(e_).__name__), site=b.loc(), config=config)
+            continue
+        allowed = READ_API if kind == "shared" else MUT_API
+        gets = set()
+        for e in ends:
+            for x in _deep_all(e.path.events):
+                if x[0] != "call" or x[2].local or not x[3] or not _table_recv(ev, x[3][0]):
+                    continue
+                if x[2].name not in allowed and x[2].name not in ("deref", "deref_mut", "as_ref", "as_mut", "borrow"):
+                    problems.append("calls `%s` on the resource table through a %s World reference" % (x[2].name, kind))
+                if x[2].name == "get":
+                    gets.add(x[4])
         if kind == "shared":
-            # what happens to the looked-up cell
-            for g in gets:
-                consumers = _cell_consumers(prog, b, g)
-                for name, where in consumers:
-                    ok = name in SHARED_BORROWS | EXCL_BORROWS or name in ("branch", "from_residual", "map")
-                    if name == "<return>":
-                        ok = b.qname == A.WORLD + "::try_fetch_internal" and b.raw.get("unsafe")
-                    if not ok:
-                        problems.append("the looked-up cell flows into `%s` at %s (only the cell's borrow calls may see it)" % (name, where))
+            cells = set(("field", ("variant", g, "Some"), "0", "std::option::Option") for g in gets)
+            for name, where in _cell_uses(ev, ends, lambda s: s in cells or s in gets):
+                ok = name in SHARED_BORROWS | EXCL_BORROWS
+                if name == "<return>":
+                    if b.key == tfi_key and b.raw.get("unsafe"):
+                        ok = True
+                    elif not b.raw.get("pub") and b.container == "inherent":
+                        returns_cell = True   # a private helper: decided at its callers
+                        ok = True
+                if not ok:
+                    problems.append("the looked-up cell flows into `%s`%s (only the cell's borrow calls may see it)" % (name, " at %s" % where if where else ""))
+        results[b.key] = not problems
+        if returns_cell:
+            deferred.append(b)
         report.ob(rule, "table-access/%s" % b.qname, not problems, "; ".join(sorted(set(problems))) if problems else
                   "%s access: table used through %s only, cells go to borrow calls" % (kind, "get/contains_key/is_empty" if kind == "shared" else "the map API"),
-                  site=b.loc(hits[0]), config=config)
-    report.floor(rule, "bodies reaching the table through &World", n_shared, 7, config=config)
+                  site=b.loc(hits[0]) if hits and b.blocks and hits[0] < len(b.blocks) else b.loc(), config=config)
+    # private helpers that hand a cell to their caller: every caller must itself only borrow it
+    for hb in deferred:
+        callers = [cb for cb, bb in facts.callers().get(hb.key, [])]
+        roots = {}
+        for cb in callers:
+            r = cb
+            while r.is_closure and r.parent_key in facts.bodies:
+                r = facts.bodies[r.parent_key]
+            roots[r.key] = r
+        bad = []
+        for r in roots.values():
+            try:
+                ev, ends = Q.sem(ctx, facts, r, opaque=[tfi_key, ast_key, A.RESID + "::new"] + _downcasts(facts))
+            except Exception:
+                bad.append(r.qname)
+                continue
+            gets = set()
+            for e in ends:
+                for x in _deep_all(e.path.events):
+                    if x[0] == "call" and not x[2].local and x[3] and _table_recv(ev, x[3][0]) and x[2].name == "get":
+                        gets.add(x[4])
+            cells = set(("field", ("variant", g, "Some"), "0", "std::option::Option") for g in gets)
+            uses = _cell_uses(ev, ends, lambda s: s in cells or s in gets)
+            if [n for n, _ in uses if n not in SHARED_BORROWS | EXCL_BORROWS] or not gets:
+                bad.append(r.qname)
+        report.ob(rule, "cell-helper/%s" % hb.qname, bool(roots) and not bad,
+                  "private helper: the cell it hands out only goes to borrow calls in %s" % sorted(r.qname.rsplit("::", 1)[1] for r in roots.values()) if roots and not bad else
+                  "the cell handed out by %s escapes the borrow API in %s" % (hb.qname, bad or "(no caller)"), site=hb.loc(), config=config)
+    report.floor(rule, "bodies reaching the table through &World", n_shared, 6, config=config)
     report.floor(rule, "bodies reaching the table through &mut World", n_mut, 4, config=config)
     # callers of the unsafe escape hatch only borrow
     tfi = facts.one(A.WORLD + "::try_fetch_internal")
@@ -233,6 +325,17 @@ def _deep(events):
         out.append(x)
         if x[0] == "loop" and x[2] is not None:
             out.extend(_deep(x[1].iters[x[2]].path.events))
+    return out
+
+
+def _deep_all(events):
+    """Events of a path with those of every way through its loops."""
+    out = []
+    for x in events:
+        out.append(x)
+        if x[0] == "loop":
+            for it in x[1].iters:
+                out.extend(_deep_all(it.path.events))
     return out
 
 
@@ -431,7 +534,33 @@ def unsafe_inventory(ctx, report, rule, facts, config):
     want_fns = set([A.WORLD + "::try_fetch_internal", A.BCS + "::create",
                     "dyn:(dyn shred::world::Resource + 'static)::downcast_unchecked", "dyn:(dyn shred::world::Resource + 'static)::downcast_ref_unchecked",
                     "dyn:(dyn shred::world::Resource + 'static)::downcast_mut_unchecked"])
+    by_q = {}
+    for b_ in facts.bodies.values():
+        by_q.setdefault(b_.qname, b_)
+
+    def touches_world(q):
+        """Does the unsafe fn (with what it calls) reach the resource table, the cells' API or build a guard?"""
+        b_ = by_q.get(q)
+        if b_ is None:
+            return True
+        for cb in facts.cone([b_]).values():
+            if touches_field(cb, A.WORLD, "resources"):
+                return True
+            for bb, t_ in cb.normal_calls():
+                c = Callee(t_["func"])
+                if c.path.startswith(CELL + "::") or c.self_head == CELL or c.name in ("downcast_unchecked", "downcast_ref_unchecked", "downcast_mut_unchecked", "try_fetch_internal"):
+                    return True
+            for blk in cb.blocks:
+                for st in blk["stmts"]:
+                    if st["k"] == "assign" and st["rv"]["k"] == "agg" and st["rv"].get("adt") in (A.FETCH, A.FETCHMUT):
+                        return True
+        return False
+
     for q in sorted(set(ufns) | want_fns):
+        if q in ufns and q not in want_fns and not touches_world(q):
+            # an unsafe helper that never comes near the resource table, its cells or the guards has no bearing on this property
+            report.ob(rule, "unsafe-fn/%s" % q.rsplit("::", 1)[-1], True, "unsafe fn %s does not reach the resource table, the cell API or a guard" % q, config=config)
+            continue
         report.ob(rule, "unsafe-fn/%s" % q.rsplit("::", 1)[-1], q in want_fns and q in ufns,
                   "audited unsafe fn" if q in want_fns and q in ufns else ("unaudited unsafe fn %s" % q if q in ufns else "expected unsafe fn %s missing" % q), config=config)
     # callers of the unsafe fns
@@ -547,28 +676,30 @@ def insert_rules(ctx, report, rule, facts, config):
     # wrappers use the id of their own type
     from . import semq as Q
     RNEW = A.RESID + "::new"
-    for name, raw, extra in (("insert", "insert_by_id", 1), ("remove", "remove_by_id", 0), ("has_value", "has_value_raw", 0), ("get_mut", "get_mut_raw", 0)):
+    for name, op in (("insert", "insert"), ("remove", "remove"), ("has_value", "contains_key"), ("get_mut", "get_mut")):
         b = facts.one(A.WORLD + "::" + name)
-        rb = facts.one(A.WORLD + "::" + raw)
         report.touched(b, config)
         gens = [g["name"] for g in b.raw.get("generics", []) if g["kind"] == "ty"]
-        ev, ends = Q.sem(ctx, facts, b, opaque=[rb.key, RNEW])
+        # looked into all the way down to the table (whether or not a *_by_id / *_raw helper is in between): the slot
+        # that is touched is the one of the method's own type parameter
+        ev, ends = Q.sem(ctx, facts, b, opaque=[RNEW, A.RESID + "::assert_same_type_id"] + _downcasts(facts))
         rets = [e for e in ends if e.kind == "return"]
         ok = bool(rets)
         for e in rets:
-            cs = [x for x in _deep(e.path.events) if x[0] == "call" and x[2].key == rb.key]
-            if len(cs) != 1:
+            ops = [x for x in _deep(e.path.events) if x[0] == "call" and not x[2].local and x[3] and _table_recv(ev, x[3][0])
+                   and x[2].name in ("insert", "remove", "contains_key", "get_mut", "get", "entry")]
+            if len(ops) != 1 or ops[0][2].name != op:
                 ok = False
                 continue
-            a = cs[0][3]
-            k = Q.strip(ev, a[1])
-            good = a[0] == SELF and Q.is_call(ev, k, "new") and Q.callee_of(ev, k).self_head == A.RESID and ev.targs(k) == gens[:1]
-            if good and raw in ("insert_by_id", "remove_by_id"):
-                good = ev.targs(cs[0][4])[:1] == gens[:1]
-            if good and extra:
-                good = Q.strip(ev, a[2]) == ("param", 2)
+            k = Q.strip(ev, ops[0][3][1])
+            good = Q.is_call(ev, k, "new") and Q.callee_of(ev, k).self_head == A.RESID and ev.targs(k) == gens[:1]
+            if good and op == "insert":
+                good = _boxed_as(ev, ops[0][3][2], gens[0], lambda x: x == ("param", 2))
+            asserts = [x for x in _deep(e.path.events) if x[0] == "call" and x[2].name == "assert_same_type_id"]
+            for a_ in asserts:
+                good = good and Q.strip(ev, a_[3][0]) == k and ev.targs(a_[4])[:1] == gens[:1]
             ok = ok and good
-        report.ob(rule, "wrapper/%s" % name, ok, "%s::<T>() = %s(ResourceId::new::<T>(), ..)" % (name, raw) if ok else "%s does not use the id of its own type" % name, site=b.loc(), config=config)
+        report.ob(rule, "wrapper/%s" % name, ok, "%s::<T>() works on the slot ResourceId::new::<T>()" % name if ok else "%s does not use the id of its own type" % name, site=b.loc(), config=config)
     # raw operations use their id parameter as the key
     for name, op in (("has_value_raw", "contains_key"), ("try_fetch_by_id", "get"), ("try_fetch_mut_by_id", "get"), ("remove_by_id", "remove"),
                      ("get_mut_raw", "get_mut"), ("try_fetch_internal", "get")):
@@ -793,8 +924,10 @@ def guard_rules(ctx, report, rule, facts, config):
                     report.ob(rule, "downcast-checked/%s" % b.qname, ok, "unchecked downcast behind self.is::<T>()" if ok else "unchecked downcast without the `is` test", site=b.loc(bb), config=config)
                     continue
                 seen += 1
-                ok = want.get(b.qname) == c.name and _type_args(c) == ["T"]
-                if ok and b.qname != A.WORLD + "::get_mut::{closure#0}":
+                fnq = b.qname.split("::{closure", 1)[0]
+                want_fn = dict((k.split("::{closure", 1)[0], v) for k, v in want.items())
+                ok = want_fn.get(fnq) == c.name and _type_args(c) == ["T"]
+                if ok and fnq != A.WORLD + "::get_mut":
                     r_, p_ = root(bt.call_args(bb)[0], bt, facts.crate)
                     ok = (r_, p_) == (SELF, ["inner"])
                 report.ob(rule, "downcast/%s" % b.qname, ok, "%s::<T> on the guard's own cell content" % c.name if ok else
